@@ -80,7 +80,7 @@ def make_schema(variant=0):
 
 
 def rand_adoc(rng, key, rich=True):
-    d = world.rand_doc(rng, gaps=True)
+    d = world.rand_doc(rng, gaps=True, boosts=True)
     d["key"] = key
     if rng.random() < 0.6:
         d["t"]["x_dyn"] = [world.rand_term(rng) for _ in range(rng.randrange(1, 5))]
@@ -381,6 +381,22 @@ def dump(reader, idx, schema, rng=None, maxterms=40, columns=True, vectors=True,
         for dn in live:
             guard("fieldlen", lambda f=f, dn=dn: obs.append({"kind": "fieldlen", "f": f, "d": dn,
                                                              "n": int(reader.doc_field_length(dn, f))}))
+    # the posting weights of an existence-only field (ID: no frequency is stored, the weight is the boost)
+    if "key" in schema.names() and schema["key"].indexed:
+        def idw():
+            # (keys of the documents that were added with the key field: it is stored too)
+            keys = sorted(set(sf["key"] for sf in reader.all_stored_fields() if "key" in sf))
+            for k in (rng.sample(keys, 12) if rng is not None and len(keys) > 12 else keys):
+                if ("key", k) not in reader:
+                    obs.append({"kind": "idweights", "key": k, "list": []})
+                    continue
+                m = reader.postings("key", k)
+                wl = []
+                while m.is_active():
+                    wl.append([int(m.id()), _scaled(m.weight())])
+                    m.next()
+                obs.append({"kind": "idweights", "key": k, "list": wl})
+        guard("idweights", idw)
     # the term-iteration APIs, relative to the lexicons just listed (all_terms, terms_from, iter_from, iter_field,
     # iter_prefix, expand_prefix, field_terms, frequency, doc_frequency, first_id, most_frequent_terms)
     guard("termiter", lambda: obs.extend(term_iteration(reader, schema, rng)))
